@@ -254,6 +254,11 @@ class PathState:
         return None
 
     def add_vc(self, name, kind, goal, info=None):
+        if kind == 'invariant' and not isinstance(goal, bool) and z3.is_and(goal):
+            # one VC per conjunct of an invariant: smaller queries, and the failing conjunct is named
+            for i, cj in enumerate(goal.children()):
+                self.vcs.append(VC(name, kind, self.pc, cj, dict(info or {}, conjunct=i)))
+            return
         self.vcs.append(VC(name, kind, self.pc, goal, info))
 
     def model(self):
